@@ -95,10 +95,9 @@ theorem mkSeq_noInternal (alph data : List Char) (ploc : Option (Option Nat)) : 
   rcases ploc with _ | _ | n <;> simp only [bind, Except.bind, pure, Except.pure, raise] at h
   all_goals (repeat' split at h) <;> cases h
 
-/-- full statement (fails: F-C19s): `∀ alph data ploc, okMkSeq alph data ploc (out (mkSeq alph data ploc))`.
-    Proved under: the parent location, if any, is not a zero-length location of a non-empty sequence. -/
-theorem mkSeq_spec_partial (alph data : List Char) (ploc : Option (Option Nat))
-    (h0 : ploc = some (some 0) → data = []) :
+/-- `Sequence.__init__`: refused exactly for a letter outside the alphabet or a length different from the parent
+    location's (zero-length locations included since f283aa2) -/
+theorem mkSeq_spec (alph data : List Char) (ploc : Option (Option Nat)) :
     Spec.Validate.okMkSeq alph data ploc (outOf id (mkSeq alph data ploc)) = true := by
   unfold mkSeq
   rw [alphabetOk_eq]
@@ -107,25 +106,20 @@ theorem mkSeq_spec_partial (alph data : List Char) (ploc : Option (Option Nat))
     rcases ploc with _ | _ | n
     · simp [ha, hall, bind, Except.bind, pure, Except.pure, raise, outOf, Spec.Validate.okMkSeq, Spec.Validate.validSeq]
     · simp [ha, hall, bind, Except.bind, pure, Except.pure, raise, outOf, Spec.Validate.okMkSeq, Spec.Validate.validSeq]
-    · by_cases hn : n ≠ 0 ∧ n ≠ data.length
-      · simp [hn, bind, Except.bind, raise, outOf, Spec.Validate.okMkSeq, Spec.Validate.validSeq]
-      · have hlen : n = data.length := by
-          by_cases hz : n = 0
-          · subst hz; have := h0 rfl; simp [this]
-          · omega
-        simp [hn, ha, hall, hlen, bind, Except.bind, pure, Except.pure, raise, outOf, Spec.Validate.okMkSeq,
+    · by_cases hn : n = data.length <;>
+        simp [hn, ha, hall, bind, Except.bind, pure, Except.pure, raise, outOf, Spec.Validate.okMkSeq,
             Spec.Validate.validSeq]
   · have hall : (data.all fun c => decide (Spec.Validate.upperAscii c ∈ alph)) = false := by
       rw [Bool.eq_false_iff]; simpa using ha
     rcases ploc with _ | _ | n
     · simp [ha, hall, bind, Except.bind, pure, Except.pure, raise, outOf, Spec.Validate.okMkSeq, Spec.Validate.validSeq]
     · simp [ha, hall, bind, Except.bind, pure, Except.pure, raise, outOf, Spec.Validate.okMkSeq, Spec.Validate.validSeq]
-    · by_cases hn : n ≠ 0 ∧ n ≠ data.length <;>
+    · by_cases hn : n = data.length <;>
         simp [hn, ha, hall, bind, Except.bind, pure, Except.pure, raise, outOf, Spec.Validate.okMkSeq,
             Spec.Validate.validSeq]
 
-/-- F-C19s: a non-empty sequence on a zero-length parent location is accepted. -/
-theorem mkSeq_zero_length_location_witness :
-    mkSeq ['A', 'C', 'G', 'T'] ['A', 'C', 'G', 'T'] (some (some 0)) = .ok 4 := by rfl
+/-- regression fact (F-C19s, repaired by f283aa2): a non-empty sequence on a zero-length parent location is refused -/
+theorem mkSeq_zero_length_location_refused :
+    mkSeq ['A', 'C', 'G', 'T'] ['A', 'C', 'G', 'T'] (some (some 0)) = .error (.doc .MismatchedParent) := by rfl
 
 end BioCantor.Proofs.Val
